@@ -10,7 +10,15 @@
     only loses its control; `removeTorrentEvent` (the RemoveTorrent API) additionally deletes the
     file in whatever state it is;
   * `newTorrentEvent` / `state.addTorrent` over agent storage: an existing control is reused, a
-    cached blob yields a complete torrent, otherwise a download file is created.
+    cached blob yields a complete torrent, otherwise a download file is created; the eviction branch
+    of `newTorrentEvent` (complete control whose blob the store's cleanup evicted) lets go of the old
+    control — deleting nothing — and starts a new download;
+  * `addIncomingConn`: a remote peer connects for a torrent the scheduler does not hold — a control
+    without any local request is created over whatever is on disk (`peer`);
+  * the store's cleanup evicting a cached blob (`evict`), a piece request whose payload can no longer
+    be handed to the peer's connection (`lost`: the reader is never closed), and every other event of
+    the scheduler (`other`: shutdown, announce results/errors, closed connections, failed handshakes):
+    none of them drops a torrent or deletes a file.
 
   Time is a `Nat` (nanoseconds of the injected clock).  Events are atomic, as they are in the
   scheduler's event loop.  A torrent becomes complete on the dispatcher's goroutine (`write` of the
@@ -68,6 +76,18 @@ inductive Op where
   /-- the event loop applies the pending completion notice(s) of torrent `h`
       (`dispatcherCompleteEvent`): nothing this model tracks changes -/
   | notice (h : Hash)
+  /-- a remote peer connects for torrent `h` (`incomingConnEvent` → `addIncomingConn`): when the
+      scheduler holds no control, one is created over the on-disk torrent (`prefill` pieces when the
+      torrent is new on disk) — without any local request -/
+  | peer (h : Hash) (prefill : Nat)
+  /-- the store's cleanup deletes the cached blob of `h` (the scheduler is not told) -/
+  | evict (h : Hash)
+  /-- a remote peer requests piece `i`, but its connection is closed by the time the dispatcher hands
+      the payload over: `Send` fails, the piece reader is never closed -/
+  | lost (h : Hash) (i : Nat)
+  /-- any other scheduler event (shutdown, announce result / error, connection closed, failed
+      handshake, …) -/
+  | other
   deriving Repr, DecidableEq
 
 inductive Out where
@@ -78,15 +98,34 @@ def init : State := {}
 
 def allPieces (cfg : Cfg) (ps : List Nat) : Bool := (List.range cfg.numPieces).all (· ∈ ps)
 
-/-- `CreateTorrent` + `newTorrentEvent.apply` -/
-def newTor (cfg : Cfg) (now : Nat) (t : Tor) (k : Nat) : Tor :=
-  if t.present then t
-  else if t.cached then
+/-- a control is created over the on-disk torrent: a cached blob gives a complete torrent, otherwise a
+    download file exists (created now with `k` pieces when there was none) -/
+def createTor (cfg : Cfg) (now : Nat) (t : Tor) (k : Nat) : Tor :=
+  if t.cached then
     { t with present := true, complete := true, lastRead := now, lastWrite := now, created := now }
   else
     let full := decide (cfg.numPieces ≤ k)
     { t with present := true, pieces := List.range (min k cfg.numPieces), complete := full,
              dl := !full, cached := full, lastRead := now, lastWrite := now, created := now }
+
+/-- the scheduler's control says complete while the blob is no longer in the cache -/
+def evicted (t : Tor) : Bool := t.present && t.complete && !t.cached
+
+/-- `CreateTorrent` + `newTorrentEvent.apply`. In the evicted state the caller's `CreateTorrent`
+    starts a new download file; the event's eviction branch removes the old control (complete: nothing
+    is deleted) and adds a new one. (`numPieces ≤ k`: the caller's own writes complete the blob again
+    before the event is applied, so the event finds nothing wrong and keeps the control.) -/
+def newTor (cfg : Cfg) (now : Nat) (t : Tor) (k : Nat) : Tor :=
+  if t.present then
+    if t.complete && !t.cached then
+      if cfg.numPieces ≤ k then { t with cached := true }
+      else createTor cfg now { t with present := false } k
+    else t
+  else createTor cfg now t k
+
+/-- `incomingConnEvent` → `addIncomingConn` (`GetTorrent` + `addTorrent(…, false)` when no control) -/
+def peerTor (cfg : Cfg) (now : Nat) (t : Tor) (k : Nat) : Tor :=
+  if t.present then t else createTor cfg now t k
 
 def newOut (t' : Tor) : Out := if t'.complete then .done else .waiting
 
@@ -94,6 +133,8 @@ def newOut (t' : Tor) : Out := if t'.complete then .done else .waiting
 def serveTor (now : Nat) (t : Tor) (i : Nat) (closeOk : Bool) : Tor × Out :=
   if !t.present then (t, .absent)
   else if i ∈ t.pieces then
+    -- (also when the blob was evicted: the reader opens the file lazily, the payload message is handed to the
+    -- connection, whose copy fails and closes the reader)
     (if closeOk then { t with lastRead := now, serves := now :: t.serves } else t, .sent)
   else (t, .rejected)
 
@@ -131,6 +172,9 @@ def tickTor (cfg : Cfg) (now : Nat) (t : Tor) : Tor :=
 def rmTor (t : Tor) : Tor :=
   { removeTor t with dl := false, cached := false, pieces := [] }
 
+/-- the store's cleanup -/
+def evictTor (t : Tor) : Tor := if t.cached then { t with cached := false } else t
+
 def upd (s : State) (h : Hash) (t : Tor) : State :=
   { s with tors := fun h' => if h' = h then t else s.tors h' }
 
@@ -142,6 +186,10 @@ def step (cfg : Cfg) (s : State) : Op → State × Out
   | .tick => ({ s with tors := fun h => tickTor cfg s.now (s.tors h) }, .none)
   | .rm h => (upd s h (rmTor (s.tors h)), .ok)
   | .notice _ => (s, .none)
+  | .peer h k => (upd s h (peerTor cfg s.now (s.tors h) k), .none)
+  | .evict h => (upd s h (evictTor (s.tors h)), if (s.tors h).cached then .ok else .absent)
+  | .lost h i => (s, if (s.tors h).present then (if i ∈ (s.tors h).pieces then .none else .rejected) else .absent)
+  | .other => (s, .none)
 
 def next (cfg : Cfg) (s : State) (o : Op) : State := (step cfg s o).1
 
